@@ -183,13 +183,30 @@ def final_checks(w):
             ctx.check(a.shape == b.shape and np.abs(a - b).max(initial=0.0) <= 1e-9 * scale, 'hspline-' + nm,
                       lambda: 'truncate=%s: differs from the finest-level TP representation by %.3g' %
                       (trunc, np.abs(a - b).max() if a.shape == b.shape else -1), sig('eval', fn=nm))
-        pt = tuple(rng.uniform(0, 1, dim) * ps)
-        a = ctx.call('HSplineFunc.__call__', f, *pt)
-        if a is RAISED():
-            return
-        b = ref(*pt)
-        ctx.check(abs(float(a) - float(b)) <= 1e-9 * max(1.0, abs(float(b))), 'hspline-call',
-                  lambda: 'f%s = %r vs %r' % (pt, a, b), sig('eval', fn='call'))
+        # single points: interior, exactly at the two ends of the parameter domain, exactly on mesh lines of seeded levels
+        for _ in range(4):
+            pt = []
+            for d in range(dim):
+                kind = rng.randint(5)
+                if kind == 0:
+                    pt.append(0.0)
+                elif kind == 1:
+                    pt.append(float(ps))
+                elif kind == 2:
+                    msh = m.mesh(rng.randint(L), d)
+                    pt.append(float(msh[rng.randint(len(msh))]))
+                else:
+                    pt.append(float(rng.uniform(0, 1) * ps))
+            pt = tuple(pt)
+            a = ctx.call('HSplineFunc.__call__', f, *pt)
+            if a is RAISED():
+                return
+            b = ref(*pt)
+            ctx.check(np.ndim(a) == 0 or np.size(a) == 1, 'hspline-call-shape', lambda: 'f%s returned shape %s' % (pt, np.shape(a)), sig('eval', fn='call'))
+            a_, b_ = float(np.asarray(a).ravel()[0]), float(np.asarray(b).ravel()[0])
+            ctx.check(abs(a_ - b_) <= 1e-9 * max(1.0, abs(b_)), 'hspline-call',
+                      lambda: 'truncate=%s: f%s = %r, the finest-level TP representation gives %r' % (trunc, pt, a_, b_), sig('eval', fn='call'))
+            ctx.count('eval.single-points')
         ctx.count('eval.checked')
     # ---- (f) restriction to a boundary face
     if dim >= 2:
